@@ -152,7 +152,7 @@ func visitQuiet(v Visit, toks []string, text []byte) bool {
 }
 
 // ByteAlphabet for raw lexical exploration.
-var ByteAlphabet = []byte{'a', '1', '0', '"', '\'', '\\', '#', '\n', '\r', ' ', ',', '.', '-', 'e', 'u', '{', '}', 0xC3, 0xA9, 0xEF, 0xBB, 0xBF, '\t', 0x07, 0x00}
+var ByteAlphabet = []byte{'a', '1', '0', '"', '\'', '\\', '#', '\n', '\r', ' ', ',', '.', '-', 'e', 'u', '{', '}', 0xC3, 0xA9, 0xEF, 0xBB, 0xBF, '\t', 0x07}
 
 // Bytes enumerates all byte strings of length 1..maxLen over ByteAlphabet (sharded by
 // the first two bytes).
